@@ -61,6 +61,57 @@ def in_body(prog, node, tr: ast.Try) -> bool:
     return False
 
 
+def retry_consistency(ctx, prog, fit_fns, rule_id="R2"):
+    ctx.rule(rule_id, "inside the retry, X, Y and the noise vector handed to the next fit are filtered through the same mask", floor=1)
+    n_r2 = 0
+    for fn in fit_fns:
+        for c in fit_calls(prog, fn):
+            args = list(c.args[:3])
+            if len(args) < 3:
+                s2 = kw(c, "s2")
+                args = list(c.args[:2]) + [s2]
+            if len(args) < 3 or any(a is None for a in args):
+                continue
+            names = [a.id if isinstance(a, ast.Name) else None for a in args]
+            if names[0] is None or names[1] is None:
+                continue
+            loop = enclosing(prog, c, (ast.While, ast.For), fn.node)
+            if loop is None:
+                continue
+            rebinds = {}  # name -> list of (mask canon, stmt)
+            for t, v, s, k in iter_stores(loop):
+                if isinstance(t, ast.Name) and t.id in names and isinstance(v, ast.Subscript) and isinstance(v.value, ast.Name) and v.value.id == t.id:
+                    rebinds.setdefault(t.id, []).append((canon(v.slice), s))
+            if names[0] in rebinds or names[1] in rebinds:
+                n_r2 += 1
+                mx = {m for m, _ in rebinds.get(names[0], [])}
+                my = {m for m, _ in rebinds.get(names[1], [])}
+                stmt = (rebinds.get(names[0]) or rebinds.get(names[1]))[0][1]
+                if mx != my:
+                    ctx.fail(fn, stmt, f"training inputs and targets are filtered through different masks ({sorted(mx)} vs {sorted(my)})", construct="X/Y mask mismatch in retry")
+                    continue
+                if names[2] is None:
+                    if isinstance(args[2], ast.Constant) and args[2].value is None:
+                        ctx.ok(fn, stmt, "no noise vector is passed to this fit")
+                    else:
+                        ctx.fail(fn, c, f"noise argument {canon(args[2])} of the retried fit is not a local that is filtered with X and Y", construct=f"s2 argument {canon(args[2])}")
+                    continue
+                ms = {m for m, _ in rebinds.get(names[2], [])}
+                if ms == mx:
+                    ctx.ok(fn, stmt, f"{names[0]}, {names[1]}, {names[2]} all re-bound through {sorted(mx)}")
+                else:
+                    ctx.fail(
+                        fn,
+                        stmt,
+                        f"rows are dropped from {names[0]} and {names[1]} in the retry but the noise vector '{names[2]}' handed to the next fit keeps its old length: a second consecutive failure aborts with a shape error",
+                        construct=f"retry filters {names[0]},{names[1]} by {sorted(mx)} but {names[2]} by {sorted(ms)}",
+                    )
+    if n_r2 == 0:
+        ctx.note("no retry loop re-binds its training arrays (nothing to keep consistent)")
+        ctx.rules[rule_id].floor = 0
+
+
+
 def check(ctx):
     prog = ctx.prog
     R = roles_of(prog)
@@ -128,53 +179,7 @@ def check(ctx):
             else:
                 ctx.fail(fn, loop, f"retry loop admits fewer than five attempts ({bound}): a run of 2-4 consecutive failures exhausts it", construct=f"retry bound {bound}")
 
-    ctx.rule("R2", "inside the retry, X, Y and the noise vector handed to the next fit are filtered through the same mask", floor=1)
-    n_r2 = 0
-    for fn in fit_fns:
-        for c in fit_calls(prog, fn):
-            args = list(c.args[:3])
-            if len(args) < 3:
-                s2 = kw(c, "s2")
-                args = list(c.args[:2]) + [s2]
-            if len(args) < 3 or any(a is None for a in args):
-                continue
-            names = [a.id if isinstance(a, ast.Name) else None for a in args]
-            if names[0] is None or names[1] is None:
-                continue
-            loop = enclosing(prog, c, (ast.While, ast.For), fn.node)
-            if loop is None:
-                continue
-            rebinds = {}  # name -> list of (mask canon, stmt)
-            for t, v, s, k in iter_stores(loop):
-                if isinstance(t, ast.Name) and t.id in names and isinstance(v, ast.Subscript) and isinstance(v.value, ast.Name) and v.value.id == t.id:
-                    rebinds.setdefault(t.id, []).append((canon(v.slice), s))
-            if names[0] in rebinds or names[1] in rebinds:
-                n_r2 += 1
-                mx = {m for m, _ in rebinds.get(names[0], [])}
-                my = {m for m, _ in rebinds.get(names[1], [])}
-                stmt = (rebinds.get(names[0]) or rebinds.get(names[1]))[0][1]
-                if mx != my:
-                    ctx.fail(fn, stmt, f"training inputs and targets are filtered through different masks ({sorted(mx)} vs {sorted(my)})", construct="X/Y mask mismatch in retry")
-                    continue
-                if names[2] is None:
-                    if isinstance(args[2], ast.Constant) and args[2].value is None:
-                        ctx.ok(fn, stmt, "no noise vector is passed to this fit")
-                    else:
-                        ctx.fail(fn, c, f"noise argument {canon(args[2])} of the retried fit is not a local that is filtered with X and Y", construct=f"s2 argument {canon(args[2])}")
-                    continue
-                ms = {m for m, _ in rebinds.get(names[2], [])}
-                if ms == mx:
-                    ctx.ok(fn, stmt, f"{names[0]}, {names[1]}, {names[2]} all re-bound through {sorted(mx)}")
-                else:
-                    ctx.fail(
-                        fn,
-                        stmt,
-                        f"rows are dropped from {names[0]} and {names[1]} in the retry but the noise vector '{names[2]}' handed to the next fit keeps its old length: a second consecutive failure aborts with a shape error",
-                        construct=f"retry filters {names[0]},{names[1]} by {sorted(mx)} but {names[2]} by {sorted(ms)}",
-                    )
-    if n_r2 == 0:
-        ctx.note("no retry loop re-binds its training arrays (nothing to keep consistent)")
-        ctx.rules["R2"].floor = 0
+    retry_consistency(ctx, prog, fit_fns)
 
     ctx.rule("R3", "posterior update after a refit falls back to the previous hyperparameters on LinAlgError", floor=1)
     reach_fit = set()
